@@ -145,7 +145,8 @@ def _fo_run(ctx, case, s):
     ms = []
     rs = np.random.RandomState(case['sub'] ^ 0x77)
     for j, cls in enumerate(case['sensors']):
-        rows = truth.iloc[hz + 7 * j::2 * hz]
+        off = 0 if case['sub'] % 2 == 0 else 7 * j          # even sub-seeds: all sensors share their epochs
+        rows = truth.iloc[hz + off::2 * hz]
         e = rs.randn(len(rows), 3)
         if cls == 'Position':
             ms.append(measurements.Position(sim.generate_position_measurements(rows, 1.0, _Fixed(e * 2.0 * s)), 2.0 * s))
@@ -202,6 +203,7 @@ TAU_SD = 0.02
 
 def run_first_order(case, ctx):
     ctx.label('mode=3D' if case['with_altitude'] else 'mode=2D', f"sensors={len(case['sensors'])}", 'sm' if case['sm'] else 'no_sm',
+              'shared_epochs' if (case['sub'] % 2 == 0 and len(case['sensors']) > 1) else 'separate_epochs',
               f"step={case['time_step']}", f"speed={case['speed']}")
     D = {}
     LAD = (1.0, 0.1, 0.01, 0.001)
